@@ -3356,7 +3356,16 @@ pub fn race_arc_family() -> Vec<Program> {
 /// LOCK programs (one yield; and one yield in each of two threads). A yield forces one switch and
 /// nothing else, so bounded and unbounded runs must still agree as C15 says.
 pub fn yield_ins_family(tier: &str) -> Vec<Program> {
-    let n = if tier == "quick" { 1 } else { 6 };
+    op_ins_family(if tier == "quick" { 1 } else { 6 }, "YINS", true)
+}
+
+/// Metamorphic families: an operation that must not change what the other operations can return
+/// is inserted at every position of every spawned thread (and at every pair of positions of two
+/// threads) of small A-sc and LOCK programs. YINS: `yield_now`; FINS: a SeqCst fence (all other
+/// operations are SeqCst already); LINS: a relaxed load of an atomic nobody writes; MINS: a
+/// lock/unlock pair of a mutex nobody else uses. The extra operations add scheduling points and
+/// DPOR bookkeeping, nothing else.
+pub fn op_ins_family(n: usize, kind: &str, pairs: bool) -> Vec<Program> {
     let pick = |x: Vec<Program>, n: usize| -> Vec<Program> {
         let step = (x.len() / (n + 1)).max(1);
         x.into_iter().skip(step).step_by(step).take(n).collect()
@@ -3368,16 +3377,40 @@ pub fn yield_ins_family(tier: &str) -> Vec<Program> {
     bases.extend(pick(lock_family(1, 0, 2, 3, 6, true, true), n));
     let mut out = vec![];
     for b in &bases {
+        let mut b = b.clone();
+        let ops: Vec<Op> = match kind {
+            "YINS" => vec![K::Yield.into()],
+            "FINS" => vec![K::Fence { mo: Sc }.into()],
+            "LINS" => {
+                b.objs.atomics.push(7);
+                vec![ld(b.objs.atomics.len() - 1, Rlx)]
+            }
+            _ => {
+                b.objs.mutexes += 1;
+                vec![K::Unlock { m: b.objs.mutexes - 1 }.into(), K::Lock { m: b.objs.mutexes - 1 }.into()]
+            }
+        };
+        let ins = |p: &Program, t: usize, pos: usize| -> Program {
+            let mut q = p.clone();
+            for o in &ops {
+                q = insert_op(&q, t, pos, o.clone());
+            }
+            q
+        };
         let nt = b.threads.len();
-        for t in 1..nt {
+        // main too (between the spawns, between the joins), except for the mutex pair
+        for t in (if kind == "MINS" { 1 } else { 0 })..nt {
             for pos in 0..=b.threads[t].len() {
-                let mut q = insert_op(b, t, pos, K::Yield.into());
-                q.name = format!("YINS-{}", b.name);
+                let mut q = ins(&b, t, pos);
+                q.name = format!("{}-{}", kind, b.name);
                 out.push(q.clone());
+                if !pairs {
+                    continue;
+                }
                 for t2 in (t + 1)..nt {
                     for pos2 in 0..=b.threads[t2].len() {
-                        let mut q2 = insert_op(&q, t2, pos2, K::Yield.into());
-                        q2.name = format!("YINS2-{}", b.name);
+                        let mut q2 = ins(&q, t2, pos2);
+                        q2.name = format!("{}2-{}", kind, b.name);
                         out.push(q2);
                     }
                 }
